@@ -29,6 +29,8 @@ type c18Case struct {
 	InMap bool `json:"inMap,omitempty"`
 	// InSlice: the value is an element of a typed Go slice ([]int64, []float32, []string ...) parsed by a slice schema
 	InSlice bool `json:"inSlice,omitempty"`
+	// TypedMap (with InMap): the map is a typed Go map whose element type is the value's own type
+	TypedMap bool `json:"typedMap,omitempty"`
 }
 
 var plainNumberRe = regexp.MustCompile(`^[+-]?[0-9]+(\.[0-9]*)?([eE][+-]?[0-9]+)?$`)
@@ -129,7 +131,13 @@ func propC18(c c18Case) hh.Verdict {
 					res.Panic = p
 				}
 			}()
-			if c.InMap {
+			if c.InMap && c.TypedMap {
+				// a typed Go map (map[string]float64, map[string]int64, map[string]string ...): a table row of one cell type
+				one := c.In.Go()
+				m := reflect.MakeMap(reflect.MapOf(reflect.TypeOf(""), reflect.TypeOf(one)))
+				m.SetMapIndex(reflect.ValueOf("n"), reflect.ValueOf(one))
+				res.Map = schema.(*z.StructSchema).Parse(m.Interface(), dest.Interface())
+			} else if c.InMap {
 				res.Map = schema.(*z.StructSchema).Parse(map[string]any{"n": c.In.Go()}, dest.Interface())
 			} else {
 				res.Map = schema.(*z.StructSchema).Parse(zjson.Decode(strings.NewReader(`{"n":`+c.JSON+`}`)), dest.Interface())
@@ -285,6 +293,8 @@ func c18Cells(yield0 func(c18Case)) {
 		if c.JSON == "" && !c.InMap && c.In.T != "jsonnum" {
 			c.InSlice = true
 			yield0(c)
+			c.InSlice, c.InMap, c.TypedMap = false, true, true
+			yield0(c)
 		}
 	}
 	fits := func(b *big.Int, bits int, signed bool) bool {
@@ -399,6 +409,9 @@ func TestC18(t *testing.T) {
 		case 1:
 			return c18Case{Kind: kind, In: model.Int(int(rapid.Int64().Draw(rt, "i"))), InSlice: rapid.Bool().Draw(rt, "insl")}
 		case 2:
+			if rapid.IntRange(0, 3).Draw(rt, "tm") == 0 {
+				return c18Case{Kind: kind, In: model.F64(rapid.Float64().Draw(rt, "f64")), InMap: true, TypedMap: true}
+			}
 			return c18Case{Kind: kind, In: model.F64(rapid.Float64().Draw(rt, "f64")), InSlice: rapid.Bool().Draw(rt, "insl")}
 		case 3:
 			return c18Case{Kind: kind, In: model.F32(rapid.Float32().Draw(rt, "f32")), InSlice: rapid.Bool().Draw(rt, "insl")}
